@@ -23,7 +23,7 @@ func pointArg(v w.Val) *object.Point {
 
 // tooLong: the end points are more than ~1500 cells apart on some axis. Only the shared shrinker produces such calls (it moves a
 // coordinate to 0); they would take minutes, and the model does not judge segments beyond 400 cells either (DC06.span_ok),
-// so the implementation is not called and the case is dropped by the dispatcher as outside the bounded domain.
+// so the implementation is not called; the dispatcher recomputes the span itself and answers class "skipped" (not a pass).
 func tooLong(p1, p2 w.Val, h, v int64) bool {
 	if _, ok := p1.(w.Nil); ok {
 		return false
@@ -38,10 +38,7 @@ func tooLong(p1, p2 w.Val, h, v int64) bool {
 	if len(a) != 3 || len(b) != 3 {
 		return false
 	}
-	dx := math.Abs(w.AsFlt(b[0])-w.AsFlt(a[0])) / cellLon(h)
-	if wd := math.Pow(2, float64(h)); dx > wd/2 {
-		dx = wd - dx
-	}
+	dx := math.Abs(w.AsFlt(b[0])-w.AsFlt(a[0])) / cellLon(h) // the segment is interpolated linearly (through lon 0): no wrap
 	dy := math.Abs(rowOf(w.AsFlt(b[1]), h) - rowOf(w.AsFlt(a[1]), h))
 	df := math.Abs(w.AsFlt(b[2])-w.AsFlt(a[2])) / cellAlt(v)
 	return !(dx <= 1500 && dy <= 1500 && df <= 1500) // NaN counts as too long
@@ -63,6 +60,19 @@ func fnLineSid() *run.Fn {
 		}
 		ids, err := shape.GetSpatialIdsOnLine(pointArg(a[0]), pointArg(a[1]), w.AsInt(a[2]))
 		return w.WithErr(w.Strs(ids), err)
+	}}
+}
+
+// both exported functions on the same input (the spatial-ID form must be the extended form with h = v, converted)
+func fnSidVsExt() *run.Fn {
+	return &run.Fn{Name: "LineSidVsExt", Invoke: func(a []w.Val) w.Val {
+		z := w.AsInt(a[2])
+		if tooLong(a[0], a[1], z, z) {
+			return w.L(w.Nil{}, w.Nil{})
+		}
+		sids, e1 := shape.GetSpatialIdsOnLine(pointArg(a[0]), pointArg(a[1]), z)
+		eids, e2 := shape.GetExtendedSpatialIdsOnLine(pointArg(a[0]), pointArg(a[1]), z, z)
+		return w.L(w.WithErr(w.Strs(sids), e1), w.WithErr(w.Strs(eids), e2))
 	}}
 }
 
@@ -192,6 +202,12 @@ func genSegment(g *Gen, h, v int64) seg {
 		switch g.Intn(5) {
 		case 0:
 			lon = g.PickF(180, -180, math.Nextafter(180, 0), math.Nextafter(-180, 0), 179.99999999999994)
+			if g.Chance(0.3) { // combined with the latitude limit
+				lat = sgn(g) * (LatMax - g.R.Float64()*k*cy(LatMax))
+			}
+			if g.Chance(0.3) { // combined with a crossing of f = 0
+				alt = -g.R.Float64() * k * ca * 0.5
+			}
 			mk(-math.Copysign(1, lon)*g.R.Float64()*k, (g.R.Float64()*2-1)*k, (g.R.Float64()*2-1)*k)
 		case 1:
 			lon = -g.R.Float64() * k * cl * g.PickF(0, 0.5, 1)
@@ -304,6 +320,20 @@ func genUnstable(g *Gen, h, v int64) (seg, bool) {
 	s := seg{kind: "unstable-endpoint"}
 	s.a = [3]float64{lon, lat, alt}
 	s.b = [3]float64{lon + (g.R.Float64()*2-1)*g.PickF(0, 0.2, 1, k)*cl, lat + sgn(g)*k*cy, alt + (g.R.Float64()*2-1)*g.PickF(0, 0.2, 1)*ca}
+	if g.Chance(0.35) {
+		// constant latitude: every midpoint has the unstable latitude and is re-cut into the neighbouring row
+		s.kind = "unstable-const-lat"
+		s.b = [3]float64{lon + sgn(g)*k*cl, lat, alt + (g.R.Float64()*2-1)*g.PickF(0, 0, 1, k)*ca}
+		if g.Chance(0.3) {
+			s.b[0] = lon
+			s.b[2] = alt + sgn(g)*k*ca
+		}
+	}
+	if g.Chance(0.15) {
+		// both stored end points in one voxel (the function must return that single ID although the re-stored points lie elsewhere)
+		s.kind = "unstable-one-voxel"
+		s.b = [3]float64{lon + g.R.Float64()*1e-3*cl, lat, alt}
+	}
 	if g.Chance(0.5) {
 		s.a, s.b = s.b, s.a
 	}
@@ -462,23 +492,44 @@ func genMidOnBoundary(g *Gen, h, v int64) seg {
 	return s
 }
 
+// longer segments (60..300 cells on the longest axis), generic direction
+func genLong(g *Gen, h, v int64) seg {
+	cl, ca := cellLon(h), cellAlt(v)
+	lon := g.R.Float64()*300 - 150
+	lat := g.R.Float64()*140 - 70
+	alt := (g.R.Float64()*2 - 1) * 1000
+	k := 60 + g.R.Float64()*240
+	cy := cl * math.Cos(lat*math.Pi/180)
+	d := func() float64 { return (g.R.Float64()*2 - 1) * k * g.PickF(1, 1, 0.3, 0.02, 0) }
+	s := seg{kind: "long"}
+	s.a = [3]float64{lon, lat, alt}
+	s.b = [3]float64{clamp(lon+d()*cl, -180, 180), clamp(lat+d()*cy, -LatMax, LatMax), clamp(alt+d()*ca, -33554432, 33554432)}
+	return s
+}
+
 var badZooms = []int64{-1, 36, 37, 100, -36, math.MinInt64, math.MaxInt64}
 
 func init() {
 	Scale["C06"] = 450
 	Registry["C06"] = func(r *run.Runner, g *Gen, n int) {
 		MathOracles(r)
-		r.Register(fnLine(), fnLineSid())
+		r.Register(fnLine(), fnLineSid(), fnSidVsExt())
 		hwm := int64(0)
+		nodeFail := 0 // runs of the model in which some visited node failed its A1/A2 check
 		if n > 0 { // the recorded witness of finding class retruncation_unstable_endpoint (DESIGN.md 5.3, D14): row ...392 is missing
 			_, p1, _ := StoredPoint(45.72633137829496, -80.75007534638786, 639.72)
 			_, p2, _ := StoredPoint(45.72633138036946, -80.75007530962435, 639.72)
 			r.Run(run.Case{Prop: "C06", Fn: "GetExtendedSpatialIdsOnLine", Tags: []string{"d14-witness"},
 				Args: []w.Val{p1, p2, w.I(34), w.I(6)}})
+			// same start point, constant latitude: the segment lies in row ...393, the code returns columns in row ...392
+			_, p3, _ := StoredPoint(45.7263315, -80.75007534638786, 639.72)
+			r.Run(run.Case{Prop: "C06", Fn: "GetExtendedSpatialIdsOnLine", Tags: []string{"d14-const-lat-witness"},
+				Args: []w.Val{p1, p3, w.I(34), w.I(6)}})
 		}
 		for i := 0; i < n; i++ {
 			h, v := lineZooms(g)
-			sid := i%6 == 4
+			cmp := i%15 == 8 // both exported functions on the same input
+			sid := i%6 == 4 || cmp
 			if sid {
 				if g.Chance(0.5) {
 					v = h
@@ -522,6 +573,20 @@ func init() {
 				}
 				s = genFullSpan(g, h, v)
 			}
+			if i%50 == 20 {
+				if h < 12 {
+					h = 12 + g.Int63n(24)
+					if sid {
+						v = h
+					}
+				}
+				for {
+					s = genLong(g, h, v)
+					if c := cells(s, h, v); c <= 320 {
+						break
+					}
+				}
+			}
 			if i%12 == 5 { // an end point that is not stable under re-storing (the recorded finding class)
 				h = g.Pick(35, 34, 33, 32, 31, 30)
 				if sid {
@@ -531,10 +596,22 @@ func init() {
 					s = u
 				}
 			}
+			// the judged domain: on the map, |alt| <= 2^25
+			for _, q := range []*[3]float64{&s.a, &s.b} {
+				q[0] = clamp(q[0], -180, 180)
+				q[1] = clamp(q[1], -LatMax, LatMax)
+				q[2] = clamp(q[2], -33554432, 33554432)
+			}
 			_, p1, ok1 := StoredPoint(s.a[0], s.a[1], s.a[2])
 			_, p2, ok2 := StoredPoint(s.b[0], s.b[1], s.b[2])
 			if !ok1 || !ok2 {
 				continue
+			}
+			if i%20 == 6 { // the caller stored the start latitude twice (SetLat(p.Lat())): another stored value
+				l := w.AsList(p1)
+				if _, q, ok := StoredPoint(w.AsFlt(l[0]), w.AsFlt(l[1]), w.AsFlt(l[2])); ok {
+					p1 = q
+				}
 			}
 			tags := []string{Tag("hzoom=%d", h), Tag("vzoom=%d", v), "kind=" + s.kind}
 			triv := s.kind == "identical"
@@ -566,6 +643,11 @@ func init() {
 				}
 			}
 			var vd run.Verdict
+			if cmp {
+				r.Run(run.Case{Prop: "C06", Fn: "LineSidVsExt", Tags: append(tags, "sid-vs-ext"), Trivial: triv,
+					Args: []w.Val{p1, p2, w.I(h)}})
+				continue
+			}
 			if sid {
 				vd = r.Run(run.Case{Prop: "C06", Fn: "GetSpatialIdsOnLine", Tags: append(tags, "sid"), Trivial: triv,
 					Args: []w.Val{p1, p2, w.I(h)}})
@@ -574,7 +656,10 @@ func init() {
 					Args: []w.Val{p1, p2, w.I(h), w.I(v)}})
 			}
 			// the model reports the deepest recursion level it needed (fuel is 64)
-			if l, ok := vd.Model.(w.List); ok && len(l) == 2 {
+			if l, ok := vd.Model.(w.List); ok && len(l) == 3 {
+				if b, ok := l[2].(w.Bool); ok && !bool(b) {
+					nodeFail++
+				}
 				if d, ok := l[1].(w.Int); ok && d.V.IsInt64() && d.V.Int64() > hwm {
 					hwm = d.V.Int64()
 				}
@@ -585,6 +670,7 @@ func init() {
 		}
 		if n > 0 {
 			r.Sum.Tags[Tag("STAT fuel_high_water_mark=%d (of 64)", hwm)] = 1
+			r.Sum.Tags[Tag("STAT runs_with_a_failed_A1A2_node_check=%d", nodeFail)] = 1
 		}
 	}
 }
